@@ -256,11 +256,11 @@ pub fn run(ctx: &Ctx, out: &mut Outcome) {
     let t = ctx.tier;
     let bin = ctx.hyeong_bin();
     let scratch = ctx.scratch.clone();
-    let cfg = Cfg { budget: t.pick(2000, 30000), size_cap9: 7, cli: true };
+    let cfg = Cfg { budget: t.pick(2000, 8000), size_cap9: 7, cli: true };
     let max_len = t.pick(40, 120);
     {
         let (bin, scratch) = (bin.clone(), scratch.clone());
-        search::<Case1>(ctx, out, "general", t.pick(12_000, 200_000), &move || prog_case(&Profile::general(max_len)).prop_map(Case1).boxed(), &move |c, st| check(c, st, &cfg, &bin, &scratch));
+        search::<Case1>(ctx, out, "general", t.pick(12_000, 80_000), &move || prog_case(&Profile::general(max_len)).prop_map(Case1).boxed(), &move |c, st| check(c, st, &cfg, &bin, &scratch));
     }
     // short programs: dense coverage of small command interactions
     let cfg2 = Cfg { budget: 500, size_cap9: 7, cli: false };
